@@ -464,6 +464,8 @@ def check_flush_shared(eng, run):
 
 
 def run(eng, run):
+    from sa.anchors import verify as _verify_anchor_names
+    _verify_anchor_names(eng, run)
     run.not_decided += NOT_DECIDED
     run.assumptions += ["the ssl module is present (conditional handler expressions `X if ssl else ()` are evaluated with ssl available)"]
     check_map(eng, run)
